@@ -1342,6 +1342,12 @@ where
                     } else {
                         // flush buffer and wait on blocked
                         ready!(inner.as_mut().poll_flush(cx))?;
+
+                        // Whatever started the shutdown (only keep-alive expiry arms the timer
+                        // itself), a transport that cannot complete its shutdown must not keep
+                        // the connection past the disconnect timeout.
+                        inner.as_mut().ensure_linger_timer(cx);
+
                         Pin::new(inner.as_mut().project().io.as_mut().unwrap())
                             .poll_shutdown(cx)
                             .map_err(DispatchError::from)
